@@ -210,7 +210,12 @@ def cl_facts(cl, f):
                        or m[1] in ('call:doAppend', 'call:doInsert'), '%s: link step' % op, required=False)
             if wr is None:
                 raise Untranslatable('CallbackListBase::%s: no write to head/tail/previous/next found' % op)
-            ok = ok and a is not None and lk is not None and a < lk < wr and not has_try(ms)
+            # the node is born with the caller's callback (doAllocateNode(callback)) and its callback member is
+            # never written afterwards
+            alloc = [m for m in ms if m[1] == 'call:doAllocateNode']
+            born = bool(alloc) and all('callback' in base_names(m[2])[1:] for m in alloc)
+            late = any(m[1] == 'assign' and m[3] == 'callback' for m in ms)
+            ok = ok and a is not None and lk is not None and a < lk < wr and born and not late and not has_try(ms)
         f['cl_%s_builds_node_before_link' % op] = ok
     # doAllocateNode: make_shared<Node>(callback, ...) — the node is born holding its callback copy
     ok = True
